@@ -7,7 +7,7 @@ set_option linter.unusedSectionVars false
 set_option linter.unusedSimpArgs false
 
 variable {K A F N C S H : Type} [DecidableEq K] [DecidableEq S] [DecidableEq N] [DecidableEq H]
-variable (fx : Facts) (mv : C → C → C) (exec : A → List (N × C) → C) (ruleSer : A → S) (pathSer : C → H)
+variable (fx : Facts) (mv : C → C → C) (rs : C → C → C) (exec : A → List (N × C) → C) (ruleSer : A → S) (pathSer : C → H)
 
 /-- Cache invariant: every entry is `exec` of what its key describes. -/
 def InvC (cache : Cache K C S N H) : Prop :=
@@ -38,22 +38,23 @@ inductive StepC (r : Repo K A F N C) (out : Out K C S N H) (cache : Cache K C S 
   | skip (ins) : inputs r out t = some ins →
       (buildOne fx mv exec ruleSer pathSer r out t).1 = out → StepC r out cache t (out, cache, false)
   | hit (ins c) : inputs r out t = some ins → cache (t.key, stampOf ruleSer pathSer t.attrs ins) = some c →
-      StepC r out cache t (fun j => if j = t.key then some (c, stampOf ruleSer pathSer t.attrs ins) else out j, cache, false)
+      StepC r out cache t (fun j => if j = t.key then some ((match out t.key with | some (c0, _) => rs c0 c | none => c),
+        stampOf ruleSer pathSer t.attrs ins) else out j, cache, false)
   | miss (ins x) : inputs r out t = some ins →
       (buildOne fx mv exec ruleSer pathSer r out t).1 t.key = some (x, stampOf ruleSer pathSer t.attrs ins) →
       StepC r out cache t ((buildOne fx mv exec ruleSer pathSer r out t).1,
         (fun q => if q = (t.key, stampOf ruleSer pathSer t.attrs ins) then some x else cache q), true)
 
 theorem buildOneC_step (r : Repo K A F N C) (out : Out K C S N H) (cache : Cache K C S N H) (t : Target K A F) :
-    StepC fx mv exec ruleSer pathSer r out cache t (buildOneC fx mv exec ruleSer pathSer r out cache t) := by
+    StepC fx mv rs exec ruleSer pathSer r out cache t (buildOneC fx mv rs exec ruleSer pathSer r out cache t) := by
   cases hin : inputs r out t with
   | none =>
-    have : buildOneC fx mv exec ruleSer pathSer r out cache t = (out, cache, false) := by simp [buildOneC, hin]
+    have : buildOneC fx mv rs exec ruleSer pathSer r out cache t = (out, cache, false) := by simp [buildOneC, hin]
     rw [this]; exact .nodeps hin
   | some ins =>
     by_cases hup : ∃ c0 st0, out t.key = some (c0, st0) ∧ stampEq fx st0 (stampOf ruleSer pathSer t.attrs ins) = true
     · obtain ⟨c0, st0, ho, hs⟩ := hup
-      have e1 : buildOneC fx mv exec ruleSer pathSer r out cache t = (out, cache, false) := by
+      have e1 : buildOneC fx mv rs exec ruleSer pathSer r out cache t = (out, cache, false) := by
         unfold buildOneC; rw [hin]; simp [ho, hs]
       have e2 : (buildOne fx mv exec ruleSer pathSer r out t).1 = out := by
         unfold buildOne; rw [hin]; simp [ho, hs]
@@ -72,8 +73,9 @@ theorem buildOneC_step (r : Repo K A F N C) (out : Out K C S N H) (cache : Cache
         | some p => obtain ⟨c0, st0⟩ := p; exact hnot c0 st0 ho
       cases hc : cache (t.key, stampOf ruleSer pathSer t.attrs ins) with
       | some c =>
-        have e1 : buildOneC fx mv exec ruleSer pathSer r out cache t =
-            (fun j => if j = t.key then some (c, stampOf ruleSer pathSer t.attrs ins) else out j, cache, false) := by
+        have e1 : buildOneC fx mv rs exec ruleSer pathSer r out cache t =
+            (fun j => if j = t.key then some ((match out t.key with | some (c0, _) => rs c0 c | none => c),
+              stampOf ruleSer pathSer t.attrs ins) else out j, cache, false) := by
           unfold buildOneC; rw [hin]; simp only
           cases ho : out t.key with
           | none => simp [hc]
@@ -81,7 +83,7 @@ theorem buildOneC_step (r : Repo K A F N C) (out : Out K C S N H) (cache : Cache
         rw [e1]; exact .hit ins c hin hc
       | none =>
         obtain ⟨x, hx⟩ := buildOne_key_ran fx mv exec ruleSer pathSer r out t ins hin hnot
-        have e1 : buildOneC fx mv exec ruleSer pathSer r out cache t =
+        have e1 : buildOneC fx mv rs exec ruleSer pathSer r out cache t =
             ((buildOne fx mv exec ruleSer pathSer r out t).1,
               (fun q => if q = (t.key, stampOf ruleSer pathSer t.attrs ins) then some x else cache q), true) := by
           unfold buildOneC; rw [hin]; simp only
@@ -91,32 +93,36 @@ theorem buildOneC_step (r : Repo K A F N C) (out : Out K C S N H) (cache : Cache
         rw [e1]; exact .miss ins x hin hx
 
 theorem buildOneC_other (r : Repo K A F N C) (out : Out K C S N H) (cache : Cache K C S N H) (t : Target K A F)
-    (j : K) (h : j ≠ t.key) : (buildOneC fx mv exec ruleSer pathSer r out cache t).1 j = out j := by
-  have hstep := buildOneC_step fx mv exec ruleSer pathSer r out cache t
-  generalize buildOneC fx mv exec ruleSer pathSer r out cache t = res at hstep ⊢
+    (j : K) (h : j ≠ t.key) : (buildOneC fx mv rs exec ruleSer pathSer r out cache t).1 j = out j := by
+  have hstep := buildOneC_step fx mv rs exec ruleSer pathSer r out cache t
+  generalize buildOneC fx mv rs exec ruleSer pathSer r out cache t = res at hstep ⊢
   cases hstep with
   | nodeps _ => rfl
   | skip _ _ _ => rfl
   | hit _ _ _ _ => simp [h]
   | miss _ _ _ _ => exact buildOne_other fx mv exec ruleSer pathSer r out t j h
 
-theorem buildOneC_inv (hmv : MvOK pathSer mv) (hP : Function.Injective pathSer) (r : Repo K A F N C) (out : Out K C S N H)
+theorem buildOneC_inv (hmv : MvOK pathSer mv) (hrs : ∀ o n, rs o n = n) (hP : Function.Injective pathSer) (r : Repo K A F N C) (out : Out K C S N H)
     (cache : Cache K C S N H) (t : Target K A F)
     (hinv : Inv exec ruleSer pathSer out) (hc : InvC exec ruleSer pathSer cache) :
-    Inv exec ruleSer pathSer (buildOneC fx mv exec ruleSer pathSer r out cache t).1 ∧
-    InvC exec ruleSer pathSer (buildOneC fx mv exec ruleSer pathSer r out cache t).2.1 := by
+    Inv exec ruleSer pathSer (buildOneC fx mv rs exec ruleSer pathSer r out cache t).1 ∧
+    InvC exec ruleSer pathSer (buildOneC fx mv rs exec ruleSer pathSer r out cache t).2.1 := by
   have hb := buildOne_inv fx mv exec ruleSer pathSer hmv hP r out t hinv
-  have hstep := buildOneC_step fx mv exec ruleSer pathSer r out cache t
-  generalize buildOneC fx mv exec ruleSer pathSer r out cache t = res at hstep ⊢
+  have hstep := buildOneC_step fx mv rs exec ruleSer pathSer r out cache t
+  generalize buildOneC fx mv rs exec ruleSer pathSer r out cache t = res at hstep ⊢
   cases hstep with
   | nodeps _ => exact ⟨hinv, hc⟩
   | skip _ _ _ => exact ⟨hinv, hc⟩
   | hit ins c hin hcc =>
     refine ⟨?_, hc⟩
+    have hplaced : (match out t.key with | some (c0, _) => rs c0 c | none => c) = c := by
+      cases out t.key with
+      | none => rfl
+      | some p => obtain ⟨c0, s0⟩ := p; exact hrs c0 c
     intro j c' st' hj
     by_cases hji : j = t.key
     · subst hji
-      simp at hj
+      simp [hplaced] at hj
       obtain ⟨rfl, rfl⟩ := hj
       exact hc _ _ _ hcc
     · simp [hji] at hj; exact hinv j c' st' hj
@@ -131,20 +137,20 @@ theorem buildOneC_inv (hmv : MvOK pathSer mv) (hP : Function.Injective pathSer) 
     · simp only [hq, if_false] at hk
       exact hc k st c hk
 
-theorem buildOneC_self (hmv : MvOK pathSer mv) (hf : fx.cmpRule = true ∧ fx.cmpSource = true)
+theorem buildOneC_self (hmv : MvOK pathSer mv) (hrs : ∀ o n, rs o n = n) (hf : fx.cmpRule = true ∧ fx.cmpSource = true)
     (hR : Function.Injective ruleSer) (hP : Function.Injective pathSer)
     (r : Repo K A F N C) (out : Out K C S N H) (cache : Cache K C S N H) (acc : List (K × C)) (seen : List K)
     (t : Target K A F) (hinv : Inv exec ruleSer pathSer out) (hc : InvC exec ruleSer pathSer cache)
     (hag : Agree out acc seen) (hd : ∀ d ∈ t.deps, d ∈ seen) :
-    ∃ st, (buildOneC fx mv exec ruleSer pathSer r out cache t).1 t.key =
+    ∃ st, (buildOneC fx mv rs exec ruleSer pathSer r out cache t).1 t.key =
       some (exec t.attrs (t.srcs.map (fun f => (r.fname f, r.files f)) ++
         t.deps.filterMap (fun d => (acc.lookup d).map (fun c => (r.outName d, c)))), st) := by
   have hin : inputs r out t = some (t.srcs.map (fun f => (r.fname f, r.files f)) ++
       t.deps.filterMap (fun d => (acc.lookup d).map (fun c => (r.outName d, c)))) := by
     simp [inputs, depIns_agree hag t.deps hd]
   have hb := buildOne_self fx mv exec ruleSer pathSer hmv hf hR hP r out acc seen t hinv hag hd
-  have hstep := buildOneC_step fx mv exec ruleSer pathSer r out cache t
-  generalize buildOneC fx mv exec ruleSer pathSer r out cache t = res at hstep ⊢
+  have hstep := buildOneC_step fx mv rs exec ruleSer pathSer r out cache t
+  generalize buildOneC fx mv rs exec ruleSer pathSer r out cache t = res at hstep ⊢
   cases hstep with
   | nodeps h => rw [hin] at h; simp at h
   | skip ins _ e => rw [e] at hb; exact hb
@@ -155,21 +161,25 @@ theorem buildOneC_self (hmv : MvOK pathSer mv) (hf : fx.cmpRule = true ∧ fx.cm
     simp only [stampOf, Stamp.mk.injEq] at hs
     have ha : a = t.attrs := (hR hs.1).symm
     have hi : ins' = ins := (map_inj (pairSer_inj pathSer hP) hs.2).symm
+    have hplaced : (match out t.key with | some (c0, _) => rs c0 c | none => c) = c := by
+      cases out t.key with
+      | none => rfl
+      | some p => obtain ⟨c0, s0⟩ := p; exact hrs c0 c
     refine ⟨stampOf ruleSer pathSer t.attrs ins, ?_⟩
-    simp only [if_true]
+    simp only [if_true, hplaced]
     rw [hce, ha, hi, hins]
   | miss ins x _ _ => exact hb
 
-theorem buildListC_spec (hmv : MvOK pathSer mv) (hf : fx.cmpRule = true ∧ fx.cmpSource = true)
+theorem buildListC_spec (hmv : MvOK pathSer mv) (hrs : ∀ o n, rs o n = n) (hf : fx.cmpRule = true ∧ fx.cmpSource = true)
     (hR : Function.Injective ruleSer) (hP : Function.Injective pathSer)
     (r : Repo K A F N C) (sel : K → Bool) :
     ∀ (ts : List (Target K A F)) (seen : List K) (out : Out K C S N H) (cache : Cache K C S N H) (acc : List (K × C)),
       acc.map (·.1) = seen → Inv exec ruleSer pathSer out → InvC exec ruleSer pathSer cache →
       Agree out acc seen → WFList sel seen ts →
-      Inv exec ruleSer pathSer (buildListC fx mv exec ruleSer pathSer r sel ts out cache).1 ∧
-      InvC exec ruleSer pathSer (buildListC fx mv exec ruleSer pathSer r sel ts out cache).2.1 ∧
+      Inv exec ruleSer pathSer (buildListC fx mv rs exec ruleSer pathSer r sel ts out cache).1 ∧
+      InvC exec ruleSer pathSer (buildListC fx mv rs exec ruleSer pathSer r sel ts out cache).2.1 ∧
       (cleanList exec r sel ts acc).map (·.1) = seen ++ selKeys sel ts ∧
-      Agree (buildListC fx mv exec ruleSer pathSer r sel ts out cache).1 (cleanList exec r sel ts acc) (seen ++ selKeys sel ts) := by
+      Agree (buildListC fx mv rs exec ruleSer pathSer r sel ts out cache).1 (cleanList exec r sel ts acc) (seen ++ selKeys sel ts) := by
   intro ts
   induction ts with
   | nil => intro seen out cache acc hk hinv hci hag _; simpa [buildListC, cleanList, selKeys] using ⟨hinv, hci, hk, hag⟩
@@ -178,16 +188,16 @@ theorem buildListC_spec (hmv : MvOK pathSer mv) (hf : fx.cmpRule = true ∧ fx.c
     by_cases hs : sel t.key = true
     · simp only [WFList, hs, if_true] at hwf
       obtain ⟨hd, hnew, hwf'⟩ := hwf
-      obtain ⟨hinv', hci'⟩ := buildOneC_inv fx mv exec ruleSer pathSer hmv hP r out cache t hinv hci
-      obtain ⟨st, hself⟩ := buildOneC_self fx mv exec ruleSer pathSer hmv hf hR hP r out cache acc seen t hinv hci hag hd
-      have hag' : Agree (buildOneC fx mv exec ruleSer pathSer r out cache t).1
+      obtain ⟨hinv', hci'⟩ := buildOneC_inv fx mv rs exec ruleSer pathSer hmv hrs hP r out cache t hinv hci
+      obtain ⟨st, hself⟩ := buildOneC_self fx mv rs exec ruleSer pathSer hmv hrs hf hR hP r out cache acc seen t hinv hci hag hd
+      have hag' : Agree (buildOneC fx mv rs exec ruleSer pathSer r out cache t).1
           (acc ++ [(t.key, exec t.attrs (t.srcs.map (fun f => (r.fname f, r.files f)) ++
             t.deps.filterMap (fun d => (acc.lookup d).map (fun c => (r.outName d, c)))))]) (seen ++ [t.key]) := by
         intro k hkm
         rcases List.mem_append.mp hkm with hks | hkt
         · have hne : k ≠ t.key := fun e => hnew (e ▸ hks)
           obtain ⟨c, st', ho, ha⟩ := hag k hks
-          exact ⟨c, st', by rw [buildOneC_other fx mv exec ruleSer pathSer r out cache t k hne]; exact ho,
+          exact ⟨c, st', by rw [buildOneC_other fx mv rs exec ruleSer pathSer r out cache t k hne]; exact ho,
             lookup_append_of_mem ha⟩
         · have hkt' : k = t.key := by simpa using hkt
           subst hkt'
@@ -201,11 +211,11 @@ theorem buildListC_spec (hmv : MvOK pathSer mv) (hf : fx.cmpRule = true ∧ fx.c
       simpa [buildListC, cleanList, hs, selKeys, List.filter_cons] using this
 
 /-- Any cached build preserves both invariants (well-formed or not). -/
-theorem buildListC_inv (hmv : MvOK pathSer mv) (hP : Function.Injective pathSer) (r : Repo K A F N C) (sel : K → Bool) :
+theorem buildListC_inv (hmv : MvOK pathSer mv) (hrs : ∀ o n, rs o n = n) (hP : Function.Injective pathSer) (r : Repo K A F N C) (sel : K → Bool) :
     ∀ (ts : List (Target K A F)) (out : Out K C S N H) (cache : Cache K C S N H),
       Inv exec ruleSer pathSer out → InvC exec ruleSer pathSer cache →
-      Inv exec ruleSer pathSer (buildListC fx mv exec ruleSer pathSer r sel ts out cache).1 ∧
-      InvC exec ruleSer pathSer (buildListC fx mv exec ruleSer pathSer r sel ts out cache).2.1 := by
+      Inv exec ruleSer pathSer (buildListC fx mv rs exec ruleSer pathSer r sel ts out cache).1 ∧
+      InvC exec ruleSer pathSer (buildListC fx mv rs exec ruleSer pathSer r sel ts out cache).2.1 := by
   intro ts
   induction ts with
   | nil => intro out cache h hc; exact ⟨h, hc⟩
@@ -213,7 +223,7 @@ theorem buildListC_inv (hmv : MvOK pathSer mv) (hP : Function.Injective pathSer)
     intro out cache h hc
     by_cases hs : sel t.key = true
     · simp only [buildListC, hs, if_true]
-      obtain ⟨h', hc'⟩ := buildOneC_inv fx mv exec ruleSer pathSer hmv hP r out cache t h hc
+      obtain ⟨h', hc'⟩ := buildOneC_inv fx mv rs exec ruleSer pathSer hmv hrs hP r out cache t h hc
       exact ih _ _ h' hc'
     · simp only [Bool.not_eq_true] at hs
       simp only [buildListC, hs]
@@ -229,16 +239,16 @@ inductive HOpC (K A F N C S H : Type) where
 def runHistC : List (HOpC K A F N C S H) → Out K C S N H × Cache K C S N H → Out K C S N H × Cache K C S N H
   | [], s => s
   | .build r sel :: ops, (out, cache) =>
-      let res := buildC fx mv exec ruleSer pathSer r sel out cache
+      let res := buildC fx mv rs exec ruleSer pathSer r sel out cache
       runHistC ops (res.1, res.2.1)
   | .remove keep :: ops, (out, cache) => runHistC ops (fun k => if keep k then out k else none, cache)
   | .evict keep :: ops, (out, cache) => runHistC ops (out, fun q => if keep q then cache q else none)
 
-theorem runHistC_inv (hmv : MvOK pathSer mv) (hP : Function.Injective pathSer) :
+theorem runHistC_inv (hmv : MvOK pathSer mv) (hrs : ∀ o n, rs o n = n) (hP : Function.Injective pathSer) :
     ∀ (ops : List (HOpC K A F N C S H)) (s : Out K C S N H × Cache K C S N H),
       Inv exec ruleSer pathSer s.1 → InvC exec ruleSer pathSer s.2 →
-      Inv exec ruleSer pathSer (runHistC fx mv exec ruleSer pathSer ops s).1 ∧
-      InvC exec ruleSer pathSer (runHistC fx mv exec ruleSer pathSer ops s).2 := by
+      Inv exec ruleSer pathSer (runHistC fx mv rs exec ruleSer pathSer ops s).1 ∧
+      InvC exec ruleSer pathSer (runHistC fx mv rs exec ruleSer pathSer ops s).2 := by
   intro ops
   induction ops with
   | nil => intro s h hc; exact ⟨h, hc⟩
@@ -247,7 +257,7 @@ theorem runHistC_inv (hmv : MvOK pathSer mv) (hP : Function.Injective pathSer) :
     obtain ⟨out, cache⟩ := s
     cases op with
     | build r sel =>
-      obtain ⟨h', hc'⟩ := buildListC_inv fx mv exec ruleSer pathSer hmv hP r sel r.targets out cache h hc
+      obtain ⟨h', hc'⟩ := buildListC_inv fx mv rs exec ruleSer pathSer hmv hrs hP r sel r.targets out cache h hc
       exact ih _ h' hc'
     | remove keep => exact ih _ (inv_restrict exec ruleSer pathSer out keep h) hc
     | evict keep =>
